@@ -8,14 +8,16 @@
 
   Fragment (`Q`): `.`  constants  `a | b`  `a , b`  `.[]`  `.name`  `empty`  `[q]`  `error`  `try b`
   `try b catch h`  `if c then a else b end` (so also `elif`, `and`, `or`)  `l // r`  `$x`
-  `src as $x | body` (variables local to a scope)  and, over a program `def f₀(g): …; def f₁(g): …; main` of one-filter-parameter
+  `src as $x | body`  `reduce src as $x (init; upd)`  `foreach src as $x (init; upd; ext)`
+  (variables local to a scope)  and, over a program `def f₀(g): …; def f₁(g): …; main` of one-filter-parameter
   functions: the parameter `g` and calls `fᵢ(a)` (any recursion).
 
     * `eval`     — fuel-indexed reference semantics (what Spec.eval says on this fragment; running
                    out of fuel is the absorbing outcome `diverge`)
     * `compile`  — emits, instruction for instruction, what compiler.go emits for these forms with
                    every optimisation switched off (compileQuery / compileComma / compileArray /
-                   compileTry / compileIf / compileAlt / compileBind / compileFuncDef / compileFunc /
+                   compileTry / compileIf / compileAlt / compileBind / compileReduce / compileForeach /
+                   compileFuncDef / compileFunc /
                    compileCallInternal); `compileProg` lays out the
                    whole program as `Compile` does.  Registers `[scope id, i]` are named by the pc
                    of the scope's `opscope` and the pc offset of the allocating instruction; the
@@ -75,6 +77,10 @@ inductive Q where
   | var (x : Nat)
   /-- `src as $x | body` -/
   | bind (x : Nat) (src body : Q)
+  /-- `reduce src as $x (init; upd)` -/
+  | reduce (x : Nat) (src init upd : Q)
+  /-- `foreach src as $x (init; upd; ext)` (`foreach src as $x (init; upd)` is `ext = .`) -/
+  | foreach (x : Nat) (src init upd ext : Q)
   deriving Inhabited
 
 inductive Err where
@@ -135,6 +141,34 @@ inductive Clo where
   | none
   | mk (h : Option Name) (q : Q) (env : Clo)
   deriving Inhabited
+
+/-- the loop of `reduce`: the state is threaded through the outputs of the source; the LAST
+    output of the update becomes the state and an empty update keeps it; the first error ends
+    everything; at the end the state is the one output -/
+def reduceL (upd : V → V → Res) (final : Stop) : List V → V → Res
+  | [], s => match final with
+    | .done => ⟨[s], .done⟩
+    | st => ⟨[], st⟩
+  | w :: ws, s =>
+    match upd w s with
+    | ⟨o, .done⟩ => reduceL upd final ws (o.getLast?.getD s)
+    | ⟨_, st⟩ => ⟨[], st⟩
+
+/-- one stream after the other: the second only if the first ended normally -/
+def Res.seq (r1 r2 : Res) : Res :=
+  match r1 with
+  | ⟨o, .done⟩ => ⟨o ++ r2.outs, r2.stop⟩
+  | ⟨o, st⟩ => ⟨o, st⟩
+
+/-- the loop of `foreach`: every output of the update becomes the state and is passed to the
+    extractor, whose outputs are emitted -/
+def foreachL (upd : V → V → Res) (ext : V → V → Res) (final : Stop) : List V → V → Res
+  | [], _ => ⟨[], final⟩
+  | w :: ws, s =>
+    let ru := upd w s
+    match ru.stop with
+    | .diverge => ⟨[], .diverge⟩
+    | _ => (Res.bindL (ext w) ru.outs ru.stop).seq (foreachL upd ext final ws (ru.outs.getLast?.getD s))
 
 def lookup {α : Type} (x : Nat) : List (Nat × α) → Option α
   | [] => none
@@ -221,6 +255,26 @@ def eval [IterMsg] (defs : Name → Q) : Nat → Ctx → Env → Q → V → Res
     match rs.stop with
     | .diverge => ⟨[], .diverge⟩
     | _ => Res.bindL (fun w => eval defs n g ⟨ρ.clo, (x, w) :: ρ.vars⟩ b v) rs.outs rs.stop
+  | n+1, g, ρ, .reduce x src init upd, v =>
+    -- for each output of `init` (outermost), one run of the loop over the outputs of `src`
+    let ri := eval defs n g ρ init v
+    match ri.stop with
+    | .diverge => ⟨[], .diverge⟩
+    | _ => Res.bindL (fun s0 =>
+        let rs := eval defs n g ρ src v
+        match rs.stop with
+        | .diverge => ⟨[], .diverge⟩
+        | _ => reduceL (fun w s => eval defs n g ⟨ρ.clo, (x, w) :: ρ.vars⟩ upd s) rs.stop rs.outs s0) ri.outs ri.stop
+  | n+1, g, ρ, .foreach x src init upd ext, v =>
+    let ri := eval defs n g ρ init v
+    match ri.stop with
+    | .diverge => ⟨[], .diverge⟩
+    | _ => Res.bindL (fun s0 =>
+        let rs := eval defs n g ρ src v
+        match rs.stop with
+        | .diverge => ⟨[], .diverge⟩
+        | _ => foreachL (fun w s => eval defs n g ⟨ρ.clo, (x, w) :: ρ.vars⟩ upd s)
+                 (fun w u => eval defs n g ⟨ρ.clo, (x, w) :: ρ.vars⟩ ext u) rs.stop rs.outs s0) ri.outs ri.stop
 
 /-! ## bytecode (code.go) -/
 
@@ -311,6 +365,25 @@ def compile (entry : Name → Nat) (g : Ctx) (e p : Nat) : Q → List Instr
     let cs := compile entry g e (p+2) s
     let px := p + 2 + cs.length
     [.dup, .expbegin] ++ cs ++ [.store e (px - e), .expend] ++ compile entry ⟨g.fn, (x, px - e) :: g.vars⟩ e (px + 2) b
+  | .reduce x src init upd =>
+    -- compileReduce: dup; init; store s; fork L; src; store x; load s; upd; store s; backtrack;
+    -- L: pop; load s
+    let ci := compile entry g e (p+1) init
+    let pst := p + 1 + ci.length                -- the `store s`: the state register is named after it
+    let cs := compile entry g e (pst + 2) src
+    let px := pst + 2 + cs.length               -- the `store x`
+    let cu := compile entry ⟨g.fn, (x, px - e) :: g.vars⟩ e (px + 2) upd
+    [.dup] ++ ci ++ [.store e (pst - e), .fork (px + 2 + cu.length + 2)] ++ cs ++
+      [.store e (px - e), .load e (pst - e)] ++ cu ++ [.store e (pst - e), .backtrack, .pop, .load e (pst - e)]
+  | .foreach x src init upd ext =>
+    -- compileForeach: dup; init; store s; src; store x; load s; upd; dup; store s; ext
+    let ci := compile entry g e (p+1) init
+    let pst := p + 1 + ci.length
+    let cs := compile entry g e (pst + 1) src
+    let px := pst + 1 + cs.length
+    let cu := compile entry ⟨g.fn, (x, px - e) :: g.vars⟩ e (px + 2) upd
+    [.dup] ++ ci ++ [.store e (pst - e)] ++ cs ++ [.store e (px - e), .load e (pst - e)] ++ cu ++
+      [.dup, .store e (pst - e)] ++ compile entry ⟨g.fn, (x, px - e) :: g.vars⟩ e (px + 2 + cu.length + 2) ext
 
 /-- length of the code of a query (independent of where it is placed) -/
 def Q.size : Q → Nat
@@ -331,6 +404,8 @@ def Q.size : Q → Nat
   | .alt l r => l.size + r.size + 14
   | .var _ => 2
   | .bind _ s b => s.size + b.size + 4
+  | .reduce _ src init upd => src.size + init.size + upd.size + 9
+  | .foreach _ src init upd ext => src.size + init.size + upd.size + ext.size + 6
 
 /-- a program: `def f₀(g): defs[0]; def f₁(g): defs[1]; …; main` -/
 structure Prog where
@@ -353,6 +428,9 @@ def Q.Closed (nf : Nat) : List Nat → Q → Prop
   | vs, .alt l r => l.Closed nf vs ∧ r.Closed nf vs
   | vs, .var x => x ∈ vs
   | vs, .bind x s b => s.Closed nf vs ∧ b.Closed nf (x :: vs)
+  | vs, .reduce x src init upd => src.Closed nf vs ∧ init.Closed nf vs ∧ upd.Closed nf (x :: vs)
+  | vs, .foreach x src init upd ext =>
+    src.Closed nf vs ∧ init.Closed nf vs ∧ upd.Closed nf (x :: vs) ∧ ext.Closed nf (x :: vs)
   | _, _ => True
 
 /-- the query uses the parameter of the enclosing function -/
@@ -367,6 +445,8 @@ def Q.HasParam : Q → Prop
   | .ite c a b => c.HasParam ∨ a.HasParam ∨ b.HasParam
   | .alt l r => l.HasParam ∨ r.HasParam
   | .bind _ s b => s.HasParam ∨ b.HasParam
+  | .reduce _ src init upd => src.HasParam ∨ init.HasParam ∨ upd.HasParam
+  | .foreach _ src init upd ext => src.HasParam ∨ init.HasParam ∨ upd.HasParam ∨ ext.HasParam
   | _ => False
 
 /-- well-scoped programs (what the jq compiler accepts): calls go to defined functions and the
